@@ -2,6 +2,7 @@ package polynomial
 
 import (
 	"math/big"
+	"math/bits"
 
 	"github.com/tuneinsight/lattigo/v6/core/rlwe"
 	"github.com/tuneinsight/lattigo/v6/schemes/bgv"
@@ -393,4 +394,46 @@ func vFindDenominator(g, Q *big.Int, primes []*big.Int) *big.Int {
 		return nil
 	}
 	return best
+}
+
+// Scale-invariant (BFV-style) evaluator: scale and level bookkeeping of the polynomial evaluator.  The data path of the
+// scale-invariant product is outside the algebraic model (C05), so the operands are zero-valued ciphertexts; decided:
+// the evaluation neither fails nor panics on valid inputs below the maximum level, the output carries the requested
+// target scale (the scale simulation of the evaluator and the evaluator's recorded scales agree at every level) and
+// the level is unchanged (no rescaling in this mode).
+func VerifH_C13_ScaleInvariantBookkeeping() {
+	c := VerifSetup_Ctx(vIsAlgebraic())
+	params := c.Params
+	t := params.PlaintextModulus()
+	rlk := rlwe.NewRelinearizationKey(params) // an all-zero key: only the bookkeeping is under test
+	eval := NewEvaluator(params, bgv.NewEvaluator(params, rlwe.NewMemEvaluationKeySet(rlk), true))
+	polys := [][]uint64{{3, 0, 7}, {0, 1, 0, 4}, {9, 8, 7, 6, 5, 4, 3, 2}}
+	levels := []int{params.MaxLevel() - 1, 2}
+	if vTier() > 0 {
+		levels = []int{params.MaxLevel(), params.MaxLevel() - 1, 2}
+	}
+	for pi, p := range polys {
+		for _, level := range levels {
+			if depth := bits.Len(uint(len(p) - 1)); level < depth {
+				continue // the evaluator asks for ceil(log2(degree+1)) levels in both modes
+			}
+			tag := "scale-invariant-poly" + vItoa(pi) + "-L" + vItoa(level)
+			ct := bgv.NewCiphertext(params, 1, level)
+			ct.Scale = params.NewScale(3)
+			var out *rlwe.Ciphertext
+			var err error
+			panicked := vPanics(func() { out, err = eval.Evaluate(ct, NewPolynomial(p), params.NewScale(7)) })
+			vAssert(!panicked, tag+"-Evaluate-does-not-panic")
+			if panicked {
+				continue
+			}
+			vAssert(err == nil, tag+"-Evaluate-no-error")
+			if err != nil {
+				continue
+			}
+			vAssert(out.Scale.Uint64()%t == 7%t, tag+"-output-scale-is-the-target-scale")
+			vAssert(out.Level() == level, tag+"-level-unchanged")
+		}
+	}
+	vCover("C13-scale-invariant-reached")
 }
